@@ -258,7 +258,12 @@ where
                 }
                 if let Some(c) = page.contents.as_ref() {
                     match c.operations(&r) {
-                        Ok(ops) => o.put(|| format!("{}.ops", key), || format!("{} ops #{:016x}", ops.len(), fnv(format!("{:?}", ops).as_bytes()))),
+                        Ok(ops) => {
+                            if std::env::var("VERIF_DEBUG").is_ok() {
+                                eprintln!("{} ops: {:?}", key, crate::props::c08::canon_seq(&ops));
+                            }
+                            o.put(|| format!("{}.ops", key), || format!("{} ops #{:016x}", ops.len(), fnv(format!("{:?}", ops).as_bytes())))
+                        }
                         Err(e) => o.err(|| format!("{}.ops", key), &e),
                     }
                 }
